@@ -56,6 +56,11 @@ pub trait Pair: 'static {
     fn bare_ok(_field: &str, _payload: &[u8], _cut: usize) -> Option<bool> {
         None
     }
+    /// The decoder runs the incremental Recon parser (see `main`: skipped under Miri's Stacked
+    /// Borrows, which the `nom_locate` crate the parser is built on does not satisfy).
+    fn recon_decoder() -> bool {
+        Self::bare_ok("body", b"", 0).is_some() || Self::bare_ok("map-key", b"", 0).is_some()
+    }
     /// The message carries a body with padding the in-tree typed encoders never write.
     fn padded(_m: &Self::Msg) -> bool {
         false
